@@ -441,3 +441,53 @@ def view_c10(op, line):
 
 def make_family(exe, view):
     return diffrun.Family("socket", exe, spec_view=view, timeout=300)
+
+
+# --------------------------------------------------------------------------------------------
+# the check itself (shared by C09 and C10)
+
+ASSUMPTIONS = [
+    "kernel contract (trusted): a TCP connection is a reliable FIFO byte pipe (send appends a prefix 1<=k<=len or fails, recv pops 1<=k<=min(avail,buflen)); "
+    "a UDP socket is a bag of (datagram, sender) pairs and recvfrom returns one cut to buflen",
+    "poll(fds, 1, T) returns 0 only after T ms (T = -1: never) — timing itself is not proved; close() releases the descriptor; "
+    "fcntl(F_GETFD/F_SETFD) on a valid descriptor does not fail; native calls return -1/errno or a non-negative value",
+    "p_socket_address_to_native / new_from_native are opaque here (C17): addresses are given in native form; allocation never fails (C18)",
+    "Linux x86-64 configuration of psocket.c (poll, not select; MSG_NOSIGNAL, SOCK_CLOEXEC, SO_DOMAIN defined); int 32 bit, size_t 64 bit",
+]
+
+
+def replay(chk, path, view):
+    cfg = pv.repo_config()
+    pv.proof_stage(chk, [])
+    exe = build(cfg)
+    fam = make_family(exe, view)
+    ops = [l.strip() for l in open(path) if l.strip() and not l.startswith("#")]
+    r = diffrun.judge(fam, ops)
+    text = "".join(o + "\n" for o in ops)
+    _, cout, _ = fam.run_c(text)
+    _, mout, _ = fam.run_m(text)
+    for o, c, m in zip(ops, cout.splitlines(), mout.splitlines()):
+        print("%s\n   C: %s\n   M: %s" % (o, c, m))
+    if r is None:
+        print("replay: implementation, model and spec agree")
+        return 0
+    print("replay: %s at op %d: %s" % (r["kind"], r["at"], r["detail"]))
+    return 1
+
+
+def scripted_cases(chk, thorough, which):
+    """corpus + exhaustive small scope + structured + random sequences"""
+    rng = chk.rng
+    depth = 5 if thorough else 4
+    ex = []
+    for label, ops in exhaustive_cases(depth):
+        chk.bump("exh:" + label)
+        ex.append(ops)
+    life = list(lifecycle_exhaustive(3 if thorough else 2)) if which == "C10" else []
+    nstruct = (20000 if thorough else 2500) if which == "C09" else (4000 if thorough else 800)
+    nseq = (1500 if thorough else 150) if which == "C09" else (12000 if thorough else 1200)
+    structured = [structured_case(rng, chk) for _ in range(nstruct)]
+    seqs = [random_sequence(rng, rng.choice([10, 25, 60]), chk) for _ in range(nseq)]
+    chk.cov["exhaustive_small_scope"] = {"loop_script_depth": depth, "alphabet_per_data_call": 6, "poll_alphabet": len(POLL_ALPHA),
+                                         "modes": [m[0] for m in MODES], "scripts": len(ex), "lifecycle_sequences": len(life)}
+    return pv.load_corpus(which) + ex + life + structured + seqs
